@@ -149,6 +149,15 @@ NonBlockingQueue<SlotType, BUFFER_SIZE, INSTRUMENTS> {
 }
 
 
+/// verification hooks: gives the external harness access to the underlying zero-copy queue
+#[cfg(feature = "verif")]
+impl<SlotType:          Unpin + Debug + Send + Sync,
+     const BUFFER_SIZE: usize,
+     const INSTRUMENTS: usize>
+NonBlockingQueue<SlotType, BUFFER_SIZE, INSTRUMENTS> {
+    pub fn verif_base(&self) -> &FullSyncZeroCopy<SlotType, OgreArrayPoolAllocator<SlotType, super::full_sync_move::FullSyncMove<u32, BUFFER_SIZE>, BUFFER_SIZE>, BUFFER_SIZE> { &self.base_queue }
+}
+
 #[cfg(any(test,doc))]
 mod tests {
     //! Unit tests for [non_blocking_queue](super) module
